@@ -85,10 +85,11 @@ class View(object):
         return len(self.idx)
 
     def get(self):
-        vals = [self.base[i] for i in self.idx]
-        if any(v is None for v in vals):
-            raise Undecided('read of an undefined array entry')
-        return vals
+        # an entry that was never written holds garbage (np.empty): it is
+        # read as a poison symbol, so that a result that depends on it can
+        # be reported instead of aborting the analysis
+        return [Aff.sym(('UNDEF', i)) if self.base[i] is None
+                else self.base[i] for i in self.idx]
 
     def sub(self, pyidx):
         """Apply a Python int or slice to this view (Python semantics)."""
@@ -112,7 +113,7 @@ class Scalar(object):
     def get(self):
         v = self.base[self.i]
         if v is None:
-            raise Undecided('read of an undefined array entry')
+            return Aff.sym(('UNDEF', self.i))
         return v
 
 
